@@ -138,3 +138,32 @@ def replay_helpers(fl, FA, vals=None, **kw):
     if inside != ("0.123457", True) or before != after or before != ("0.123", False):
         out.append(f"Op.str/Op.is_close before {before}, inside {inside}, after {after}")
     return {"failed": bool(out), "expected": "temporary values observed only inside the context", "observed": out}
+
+
+def replay_is_close(fl, FA, vals=None, **kw):
+    """Op.is_close against |a - b| <= atol + rtol * |b| at the current (default) settings: at the given operands and on a grid around the tolerance"""
+    import numpy as np
+    S = fl.settings
+    atol, rtol = float(S.atol), float(S.rtol)
+    pts = []
+    if vals and "a" in vals and "b" in vals:
+        pts.append((float(vals["a"]), float(vals["b"])))
+    for b in (1.0, 0.0, -2.5, 100.0, 1e-3):
+        for k in (0.0, 0.5, 0.999, 1.0, 1.001, 1.5, 2.0, 2.001, 3.0):
+            for sgn in (1, -1):
+                pts.append((b + sgn * k * (atol + rtol * abs(b)), b))
+    pts += [(float("nan"), float("nan")), (float("nan"), 1.0), (float("inf"), float("inf")), (float("inf"), float("-inf")), (1.0, float("inf"))]
+    for a, b in pts:
+        got = bool(fl.Op.is_close(a, b))
+        if a != a or b != b:
+            want = (a != a and b != b)
+        elif np.isinf(a) or np.isinf(b):
+            want = a == b
+        else:
+            d, lim = abs(a - b), atol + rtol * abs(b)
+            if abs(d - lim) <= 1e-12 * max(1.0, lim):
+                continue          # on the boundary up to rounding: either answer
+            want = d <= lim
+        if got != want:
+            return {"failed": True, "expected": want, "observed": got, "call": f"Op.is_close({a!r}, {b!r}) with settings.atol={atol}, settings.rtol={rtol}"}
+    return {"failed": False, "cases": len(pts)}
